@@ -387,4 +387,298 @@ theorem value_rt_f64 (ts : Syntax) (dict : Tag → Option VR) (tag : Tag) (vr : 
     | exact key
     | (rw [hres'] at key; exact key)
 
+/-! ### bytes, text and tags -/
+
+theorem takeN_append' (a r : Bytes) : takeN a.length (a ++ r) = some (a, r) := by simp [takeN]
+
+/-- OB / UN values: the bytes come back, followed by the single NUL padding byte when their number is odd
+("trailing padding" of the property statement) -/
+theorem value_rt_u8 (ts : Syntax) (dict : Tag → Option VR) (tag : Tag) (vr : VR) (hvr : vr = .OB ∨ vr = .UN)
+    (l : List Nat) (hne : l ≠ []) (hsz : (paddedValue ts.bigEndian vr (.u8 l)).length < 4294967295)
+    (rest : Bytes) (pos : Nat) :
+    paddedValue ts.bigEndian vr (.u8 l) = padTo l 0 ∧
+    Dec.readValuePreserved ⟨ts, dict, paddedValue ts.bigEndian vr (.u8 l) ++ rest, pos⟩
+        ⟨tag, vr, (paddedValue ts.bigEndian vr (.u8 l)).length⟩
+      = .ok (.u8 (padTo l 0), ⟨ts, dict, rest, pos + (paddedValue ts.bigEndian vr (.u8 l)).length⟩) := by
+  have hvb : paddedValue ts.bigEndian vr (.u8 l) = padTo l 0 := by
+    rcases hvr with h | h <;> subst h <;> simp [paddedValue, encodePrimitive, binPad]
+  refine ⟨hvb, ?_⟩
+  rw [hvb] at hsz ⊢
+  have h0 : (padTo l 0).length ≠ 0 := by
+    rw [C04.padTo_length]; unfold C04.evenUp
+    cases l with
+    | nil => exact absurd rfl hne
+    | cons a r => simp
+  have hu : (padTo l 0).length ≠ undefinedLen := by unfold undefinedLen; omega
+  rcases hvr with h | h <;> subst h <;>
+    simp [Dec.readValuePreserved, h0, hu, Dec.take, takeN_append']
+
+/-- the encoded text of a textual value -/
+def textOf : PValue → Option Bytes
+  | .str s => some s
+  | .strs l => some (joinBackslash l)
+  | _ => none
+
+def strsVrs : List VR := [.AE, .AS, .PN, .SH, .LO, .UC, .UI, .IS, .DS, .DA, .TM, .DT, .CS]
+def strVrs : List VR := [.UT, .ST, .UR, .LT]
+
+theorem textDecode_ascii {s : Bytes} (h : C04.Ascii s) : textDecode s = some s := by
+  unfold textDecode
+  have : s.all (· < 128) = true := by
+    rw [List.all_eq_true]; intro b hb; simpa using h b hb
+  simp [this]
+
+theorem textDecodeAll_ascii : ∀ {l : List Bytes}, (∀ s ∈ l, C04.Ascii s) → textDecodeAll l = some l
+  | [], _ => rfl
+  | s :: r, h => by
+    have h1 := textDecode_ascii (h s (by simp))
+    have h2 := textDecodeAll_ascii (l := r) (fun x hx => h x (by simp [hx]))
+    simp [textDecodeAll, h1, h2]
+
+theorem splitBackslash_ascii : ∀ {s : Bytes}, C04.Ascii s → ∀ p ∈ splitBackslash s, C04.Ascii p := by
+  intro s
+  induction s with
+  | nil => intro _ p hp; simp [splitBackslash] at hp; subst hp; intro b hb; cases hb
+  | cons b r ih =>
+    intro h p hp
+    have hr : C04.Ascii r := fun x hx => h x (by simp [hx])
+    have hb : b < 128 := h b (by simp)
+    simp only [splitBackslash] at hp
+    split at hp
+    · rcases List.mem_cons.mp hp with h1 | h1
+      · subst h1; intro x hx; cases hx
+      · exact ih hr p h1
+    · split at hp
+      · rename_i x xs hx
+        have hxs := ih hr
+        rw [hx] at hxs
+        rcases List.mem_cons.mp hp with h1 | h1
+        · subst h1
+          intro y hy
+          rcases List.mem_cons.mp hy with h2 | h2
+          · subst h2; exact hb
+          · exact hxs x (by simp) y h2
+        · exact hxs p (by simp [h1])
+      · simp at hp; subst hp
+        intro y hy; simp at hy; subst hy; exact hb
+
+theorem padTo_ascii {s : Bytes} (h : C04.Ascii s) (p : Nat) (hp : p < 128) : C04.Ascii (padTo s p) := by
+  unfold padTo; split
+  · intro b hb
+    rcases List.mem_append.mp hb with h1 | h1
+    · exact h b h1
+    · simp at h1; subst h1; exact hp
+  · exact h
+
+theorem textPad_lt (vr : VR) : textPad vr < 128 := by unfold textPad; split <;> decide
+
+/-- **Text values** (`Str` or `Strs`, default repertoire) under the multi-valued text VRs come back as the
+components of the written text, the last one carrying the padding byte (space; NUL for UI) when the text
+length is odd; under UT / ST / UR / LT as the single padded string. -/
+theorem value_rt_text (ts : Syntax) (dict : Tag → Option VR) (tag : Tag) (vr : VR) (v : PValue) (tb : Bytes)
+    (htb : textOf v = some tb) (hascii : C04.Ascii tb) (hne : tb ≠ [])
+    (hsz : (padTo tb (textPad vr)).length < 4294967295) (rest : Bytes) (pos : Nat) :
+    paddedValue ts.bigEndian vr v = padTo tb (textPad vr) ∧
+    (vr ∈ strsVrs →
+      Dec.readValuePreserved ⟨ts, dict, padTo tb (textPad vr) ++ rest, pos⟩ ⟨tag, vr, (padTo tb (textPad vr)).length⟩
+        = .ok (.strs (splitBackslash (padTo tb (textPad vr))), ⟨ts, dict, rest, pos + (padTo tb (textPad vr)).length⟩)) ∧
+    (vr ∈ strVrs →
+      Dec.readValuePreserved ⟨ts, dict, padTo tb (textPad vr) ++ rest, pos⟩ ⟨tag, vr, (padTo tb (textPad vr)).length⟩
+        = .ok (.str (padTo tb (textPad vr)), ⟨ts, dict, rest, pos + (padTo tb (textPad vr)).length⟩)) := by
+  have hvb : paddedValue ts.bigEndian vr v = padTo tb (textPad vr) := by
+    cases v <;> simp [textOf] at htb <;> subst htb <;> rfl
+  have hpa := padTo_ascii hascii (textPad vr) (textPad_lt vr)
+  have h0 : (padTo tb (textPad vr)).length ≠ 0 := by
+    rw [C04.padTo_length]; unfold C04.evenUp
+    cases tb with
+    | nil => exact absurd rfl hne
+    | cons a r => simp
+  have hu : (padTo tb (textPad vr)).length ≠ undefinedLen := by unfold undefinedLen; omega
+  have hdec := textDecodeAll_ascii (splitBackslash_ascii hpa)
+  have hdec1 := textDecode_ascii hpa
+  refine ⟨hvb, ?_, ?_⟩
+  · intro hm
+    simp only [strsVrs, List.mem_cons, List.mem_nil_iff, or_false] at hm
+    rcases hm with h | h | h | h | h | h | h | h | h | h | h | h | h <;> subst h <;>
+      simp [Dec.readValuePreserved, h0, hu, Dec.take, takeN_append', hdec]
+  · intro hm
+    simp only [strVrs, List.mem_cons, List.mem_nil_iff, or_false] at hm
+    rcases hm with h | h | h | h <;> subst h <;>
+      simp [Dec.readValuePreserved, h0, hu, Dec.take, takeN_append', hdec1]
+
+/-- reading the components back: a list of backslash-free strings whose joined length is even
+(no padding) comes back *exactly* -/
+theorem value_rt_strs_even (l : List Bytes) (hl : l ≠ []) (hnb : ∀ s ∈ l, NoBackslash s)
+    (heven : (joinBackslash l).length % 2 = 0) (pad : Nat) :
+    splitBackslash (padTo (joinBackslash l) pad) = l := by
+  rw [padTo_of_even heven, splitBackslash_join l hl hnb]
+
+/-- the last component with the padding byte appended -/
+def padLast : List Bytes → Nat → List Bytes
+  | [], _ => []
+  | [x], p => [x ++ [p]]
+  | x :: y :: r, p => x :: padLast (y :: r) p
+
+theorem joinBackslash_padLast : ∀ (l : List Bytes), l ≠ [] → ∀ p, joinBackslash l ++ [p] = joinBackslash (padLast l p)
+  | [], h, _ => absurd rfl h
+  | [x], _, p => rfl
+  | x :: y :: r, _, p => by
+    have := joinBackslash_padLast (y :: r) (by simp) p
+    cases r with
+    | nil => simp [joinBackslash, padLast]
+    | cons z r' =>
+      simp only [joinBackslash, padLast, List.append_assoc, List.cons_append] at this ⊢
+      rw [this]
+
+theorem padLast_ne : ∀ (l : List Bytes) (p : Nat), l ≠ [] → padLast l p ≠ []
+  | [], _, h => absurd rfl h
+  | [x], _, _ => by simp [padLast]
+  | x :: y :: r, _, _ => by simp [padLast]
+
+theorem padLast_noBackslash : ∀ (l : List Bytes) (p : Nat), p ≠ 0x5C → (∀ s ∈ l, NoBackslash s) →
+    ∀ s ∈ padLast l p, NoBackslash s
+  | [], _, _, _ => by simp [padLast]
+  | [x], p, hp, h => by
+    intro s hs; simp [padLast] at hs; subst hs
+    intro hm
+    rcases List.mem_append.mp hm with h1 | h1
+    · exact h x (by simp) h1
+    · simp at h1; exact hp h1.symm
+  | x :: y :: r, p, hp, h => by
+    intro s hs
+    simp only [padLast, List.mem_cons] at hs
+    rcases hs with h1 | h1
+    · subst h1; exact h s (by simp)
+    · exact padLast_noBackslash (y :: r) p hp (fun t ht => h t (by simp [ht])) s (by simpa using h1)
+
+/-- … and with an odd joined length the components come back with the padding byte appended to the
+last one only (the documented normalisation: trailing padding) -/
+theorem value_rt_strs_odd (l : List Bytes) (hl : l ≠ []) (hnb : ∀ s ∈ l, NoBackslash s)
+    (hodd : (joinBackslash l).length % 2 = 1) (pad : Nat) (hp : pad ≠ 0x5C) :
+    splitBackslash (padTo (joinBackslash l) pad) = padLast l pad := by
+  have : padTo (joinBackslash l) pad = joinBackslash l ++ [pad] := by simp [padTo, hodd]
+  rw [this, joinBackslash_padLast l hl, splitBackslash_join _ (padLast_ne l pad hl) (padLast_noBackslash l pad hp hnb)]
+
+/-! ### one element: `encode_primitive_element` then `decode_header` + `read_value_preserved` -/
+
+/-- an empty value (length 0) reads back as `Empty`, whatever the VR -/
+theorem value_rt_empty (d : Dec) (tag : Tag) (vr : VR) :
+    d.readValuePreserved ⟨tag, vr, 0⟩ = .ok (.empty, d) := by
+  simp [Dec.readValuePreserved]
+
+/-- what reading the value field `vb` under `vr` yields, for any continuation and position -/
+def ValueReads (ts : Syntax) (tag : Tag) (vr : VR) (vb : Bytes) (v' : PValue) : Prop :=
+  ∀ (dict : Tag → Option VR) (rest : Bytes) (pos : Nat),
+    Dec.readValuePreserved ⟨ts, dict, vb ++ rest, pos⟩ ⟨tag, vr, vb.length⟩
+      = .ok (v', ⟨ts, dict, rest, pos + vb.length⟩)
+
+/-- **Explicit VR, one primitive element.** What `encode_primitive_element` appended to the output is
+read back by `decode_header` as the same tag and VR with the exact (padded, even) value length, and by
+`read_value_preserved` as `v'` — for any following bytes, leaving them untouched, and with the position
+advanced by exactly the number of bytes written. `ValueReads` is discharged per VR class by the
+`value_rt_*` theorems above (`v'` = the value up to the documented trailing padding). -/
+theorem elem_rt_explicit (ts : Syntax) (hts : ts.explicit = true) (e e' : Enc) (hets : e.ts = ts)
+    (de : ElemHeader) (v v' : PValue) (ht : de.tag.Valid) (hg : de.tag.group ≠ 0xFFFE)
+    (hascii : C04.ValueAscii v) (hsize : (paddedValue ts.bigEndian de.vr v).length < 4294967295)
+    (hw : e.primitiveElement de v = .ok e')
+    (hv : ValueReads ts de.tag de.vr (paddedValue ts.bigEndian de.vr v) v') :
+    ∃ bs, e'.out = e.out ++ bs ∧ ∀ (dict : Tag → Option VR) (rest : Bytes) (pos : Nat),
+      ∃ d1, Dec.decodeHeader ⟨ts, dict, bs ++ rest, pos⟩
+              = .ok (⟨de.tag, de.vr, (paddedValue ts.bigEndian de.vr v).length⟩, d1) ∧
+            d1.readValuePreserved ⟨de.tag, de.vr, (paddedValue ts.bigEndian de.vr v).length⟩
+              = .ok (v', ⟨ts, dict, rest, pos + bs.length⟩) := by
+  subst hets
+  obtain ⟨_, hbs, n, henc, hout⟩ := C04.primitive_element_layout de v hascii hsize hw
+  refine ⟨hbs ++ paddedValue e.ts.bigEndian de.vr v, by rw [hout, List.append_assoc], ?_⟩
+  intro dict rest pos
+  have hrt := C03.header_rt_explicit e.ts hts dict ⟨de.tag, de.vr, (paddedValue e.ts.bigEndian de.vr v).length⟩
+    ht hg (by show (paddedValue e.ts.bigEndian de.vr v).length < 4294967296; omega) hbs n henc
+    (paddedValue e.ts.bigEndian de.vr v ++ rest)
+  refine ⟨⟨e.ts, dict, paddedValue e.ts.bigEndian de.vr v ++ rest, pos + hbs.length⟩, ?_, ?_⟩
+  · simp only [Dec.decodeHeader, List.append_assoc, hrt]
+  · have := hv dict rest (pos + hbs.length)
+    rw [this]
+    simp [List.length_append, Nat.add_assoc]
+
+/-- **Implicit VR LE, one primitive element**: same, except that the VR the reader works with is the
+dictionary's (`resolveImplicitVr`), which is the documented normalisation; `ValueReads` is therefore asked
+for that VR. -/
+theorem elem_rt_implicit (e e' : Enc) (hets : e.ts = .implicitLE) (dict : Tag → Option VR)
+    (de : ElemHeader) (v v' : PValue) (ht : de.tag.Valid)
+    (hascii : C04.ValueAscii v) (hsize : (paddedValue false de.vr v).length < 4294967295)
+    (hw : e.primitiveElement de v = .ok e')
+    (hv : ValueReads .implicitLE de.tag (resolveImplicitVr dict de.tag) (paddedValue false de.vr v) v') :
+    ∃ bs, e'.out = e.out ++ bs ∧ ∀ (rest : Bytes) (pos : Nat),
+      ∃ d1, Dec.decodeHeader ⟨.implicitLE, dict, bs ++ rest, pos⟩
+              = .ok (⟨de.tag, resolveImplicitVr dict de.tag, (paddedValue false de.vr v).length⟩, d1) ∧
+            d1.readValuePreserved ⟨de.tag, resolveImplicitVr dict de.tag, (paddedValue false de.vr v).length⟩
+              = .ok (v', ⟨.implicitLE, dict, rest, pos + bs.length⟩) := by
+  have hbe : e.ts.bigEndian = false := by rw [hets]; rfl
+  have hsize' : (paddedValue e.ts.bigEndian de.vr v).length < 4294967295 := by rw [hbe]; exact hsize
+  obtain ⟨_, hbs, n, henc, hout⟩ := C04.primitive_element_layout de v hascii hsize' hw
+  rw [hbe] at henc hout
+  rw [hets] at henc
+  refine ⟨hbs ++ paddedValue false de.vr v, by rw [hout, List.append_assoc], ?_⟩
+  intro rest pos
+  obtain ⟨hrt, h8⟩ := C03.header_rt_implicit dict ⟨de.tag, de.vr, (paddedValue false de.vr v).length⟩
+    ht (by show (paddedValue false de.vr v).length < 4294967296; omega) hbs n henc
+    (paddedValue false de.vr v ++ rest)
+  refine ⟨⟨.implicitLE, dict, paddedValue false de.vr v ++ rest, pos + hbs.length⟩, ?_, ?_⟩
+  · simp only [Dec.decodeHeader, List.append_assoc, hrt]
+  · have := hv dict rest (pos + hbs.length)
+    rw [this]
+    simp [List.length_append, Nat.add_assoc]
+
+/-! ### the full statement (not yet proved beyond single elements)
+
+`TreeRoundTrip`: for every well-formed tree, writing with the default strategy and reading the bytes back
+with the same syntax succeeds and yields a tree equal to the original up to the normalisations
+(`Norm`: recorded lengths replaced by the written ones, values replaced by their re-read form).
+The correspondence run evaluates exactly this statement (oracle `elemsRt` in `Driver/C01.lean`) on the
+real writer and reader for every generated tree; the proof by mutual induction over the reader state
+machine (DESIGN §6 C01 steps 2–4) is not done. -/
+def TreeRoundTrip (WellFormed : Elems → Prop) (Norm : Syntax → (Tag → Option VR) → Elems → Elems → Prop) : Prop :=
+  ∀ (ts : Syntax) (dict : Tag → Option VR) (t : Elems), WellFormed t →
+    ∃ bs t', writeDataset ts .setUndefined t = .ok bs ∧ readDataset ts dict bs = .ok t' ∧ Norm ts dict t t'
+
+/-- non-vacuity / end-to-end on a concrete nested tree (sequence with two items, a nested sequence, an
+empty sequence, a pixel sequence with an odd and an empty fragment, text with padding, numbers):
+the model writer and reader round-trip it in all three syntaxes, and the re-read tree differs only by
+the padding. -/
+def sampleTree : Elems :=
+  .cons (.prim ⟨0x0008, 0x0060⟩ .CS 2 (.strs [[77, 82]]))
+  (.cons (.seq ⟨0x0008, 0x1140⟩ undefinedLen
+      (.cons undefinedLen (.cons (.prim ⟨0x0008, 0x1150⟩ .UI 5 (.strs [[49, 46, 50, 46, 51]]))
+                          (.cons (.seq ⟨0x0008, 0x1199⟩ undefinedLen (.cons undefinedLen .nil .nil)) .nil))
+      (.cons undefinedLen (.cons (.seq ⟨0x0040, 0xA730⟩ undefinedLen .nil) .nil) .nil)))
+  (.cons (.prim ⟨0x0010, 0x0010⟩ .PN 7 (.str [68, 111, 101, 94, 74, 111, 104]))
+  (.cons (.prim ⟨0x0028, 0x0010⟩ .US 2 (.u16 [512]))
+  (.cons (.pix [0] [[1, 2, 3], []]) .nil))))
+
+def sampleDict : Tag → Option VR := fun t =>
+  if t = ⟨0x0008, 0x0060⟩ then some .CS else if t = ⟨0x0010, 0x0010⟩ then some .PN
+  else if t = ⟨0x0008, 0x1140⟩ ∨ t = ⟨0x0008, 0x1199⟩ ∨ t = ⟨0x0040, 0xA730⟩ then some .SQ
+  else if t = ⟨0x0008, 0x1150⟩ then some .UI else if t = ⟨0x0028, 0x0010⟩ then some .US else none
+
+def sampleReread : Elems :=
+  .cons (.prim ⟨0x0008, 0x0060⟩ .CS 2 (.strs [[77, 82]]))
+  (.cons (.seq ⟨0x0008, 0x1140⟩ undefinedLen
+      (.cons undefinedLen (.cons (.prim ⟨0x0008, 0x1150⟩ .UI 6 (.strs [[49, 46, 50, 46, 51, 0]]))
+                          (.cons (.seq ⟨0x0008, 0x1199⟩ undefinedLen (.cons undefinedLen .nil .nil)) .nil))
+      (.cons undefinedLen (.cons (.seq ⟨0x0040, 0xA730⟩ undefinedLen .nil) .nil) .nil)))
+  (.cons (.prim ⟨0x0010, 0x0010⟩ .PN 8 (.strs [[68, 111, 101, 94, 74, 111, 104, 32]]))
+  (.cons (.prim ⟨0x0028, 0x0010⟩ .US 2 (.u16 [512]))
+  (.cons (.pix [0] [[1, 2, 3, 0], []]) .nil))))
+
+/-- write, read back, and list the tokens of the re-read tree (tokens determine the tree) -/
+def rereadTokens (ts : Syntax) : Option (List Token) :=
+  (writeDataset ts .setUndefined sampleTree).toOption.bind fun bs =>
+    (readDataset ts sampleDict bs).toOption.map Elems.tokens
+
+theorem sample_tree_round_trips :
+    rereadTokens .implicitLE = some sampleReread.tokens ∧
+    rereadTokens .explicitLE = some sampleReread.tokens ∧
+    rereadTokens .explicitBE = some sampleReread.tokens := by
+  decide +kernel
+
 end Dicom.C01
